@@ -49,7 +49,7 @@ func genOp(t *rapid.T) Op {
 		op = Op{Op: k}
 	}
 	if (op.Op == "reply" || (op.Op == "error" && ErrorNameClass(op.Name) == "accept")) && rapid.IntRange(0, 11).Draw(t, "unencodable") == 0 {
-		op.Go, op.P = "nan", nil // parameters that cannot be encoded: refused, nothing written
+		op.Go, op.P = rapid.SampledFrom(UnencodableKinds).Draw(t, "unencodablekind"), nil // parameters that cannot be encoded: refused, nothing written
 	}
 	if op.Op != "fail" && op.Op != "yield" && rapid.IntRange(0, 5).Draw(t, "ret") == 0 {
 		op.Ret = true
